@@ -168,8 +168,9 @@ namespace CDNS {
             if (m_blocks_written > 0)
                 written += m_encoder.write_break();
 
-            m_encoder.rotate_output(out);
+            // The current output ends here even if the rotation reports a failure: the next output starts with a file header
             m_blocks_written = 0;
+            m_encoder.rotate_output(out);
             return written;
         }
 
